@@ -17,6 +17,7 @@ class VLoop(asyncio.SelectorEventLoop):
         self.unhandled = []           # exceptions reported to the loop's exception handler
         self.set_exception_handler(self._on_exc)
         self._clock_resolution = 1e-9
+        self._exec_pending = 0        # jobs handed to worker threads (run_in_executor / asyncio.to_thread)
 
     def _on_exc(self, loop, ctx):
         self.unhandled.append(ctx)
@@ -31,14 +32,31 @@ class VLoop(asyncio.SelectorEventLoop):
             h._scheduled = False
         return bool(self._scheduled) and self._scheduled[0]._when <= self._vt + self._clock_resolution
 
+    def run_in_executor(self, executor, func, *args):
+        """Code under test may move blocking work to a worker thread: 'idle' then includes 'no job outstanding'."""
+        fut = super().run_in_executor(executor, func, *args)
+        self._exec_pending += 1
+
+        def _done(_f):
+            self._exec_pending -= 1
+        fut.add_done_callback(_done)
+        return fut
+
     def run_idle(self, limit=100000):
-        """Run every callback that is ready now (and whatever they make ready) — no time passes."""
+        """Run every callback that is ready now (and whatever they make ready) — no virtual time passes.
+        Worker-thread jobs are waited for in real time (they are part of 'now')."""
         n = 0
-        while self._ready or self._due():
+        waited = 0.0
+        while self._ready or self._due() or self._exec_pending:
+            if not self._ready and not self._due():
+                _time.sleep(0.0005)
+                waited += 0.0005
+                if waited > 60:
+                    raise RuntimeError("run_idle: a worker-thread job does not finish")
             self.call_soon(self.stop)
             self.run_forever()
             n += 1
-            if n > limit:
+            if n > limit and not self._exec_pending:
                 raise RuntimeError("run_idle: loop does not become idle")
 
     def call(self, fn, *args):
